@@ -2667,7 +2667,8 @@ bn_sqrt1(bn_p bn) {
 	BN_RET_ON_ERR(bn_init(&res, bits));
 	BN_RET_ON_ERR(bn_init(&bit, bits));
 	BN_RET_ON_ERR(bn_init(&tmp, bits));
-	BN_RET_ON_ERR(bn_assign_2exp(&bit, (bits - bn_clz(bn))));
+	/* Start from a power of four: even exponent. */
+	BN_RET_ON_ERR(bn_assign_2exp(&bit, ((bits - bn_clz(bn)) & ~((size_t)1))));
 	while (bn_cmp(&bit, bn) > 0) {
 		bn_r_shift(&bit, 2);
 	}
@@ -2706,7 +2707,8 @@ bn_sqrt2(bn_p bn) {
 	BN_RET_ON_ERR(bn_init(&res, bits));
 	BN_RET_ON_ERR(bn_init(&bit, bits));
 	BN_RET_ON_ERR(bn_init(&tmp, bits));
-	BN_RET_ON_ERR(bn_assign_2exp(&bit, (bits - bn_clz(bn))));
+	/* Start from a power of four: even exponent. */
+	BN_RET_ON_ERR(bn_assign_2exp(&bit, ((bits - bn_clz(bn)) & ~((size_t)1))));
 	while (bn_cmp(&bit, bn) > 0) {
 		bn_r_shift(&bit, 2);
 	}
